@@ -7,7 +7,9 @@ package main
 import (
 	"fmt"
 	"io"
+	"os"
 	"path/filepath"
+	"syscall"
 	"runtime"
 	"strings"
 	"testing"
@@ -30,6 +32,7 @@ type c18Case struct {
 	Procs    int    `json:"procs"`
 	Comment  int    `json:"comment"` // parser configuration: 0 default, 1 the zero Config{}, 2 ';' as comment character
 	LongLine int    `json:"longline"` // > 0: a note line of that many bytes is inserted after the first heading
+	Warmup   int    `json:"warmup"`   // the same Parser value first parses this many other streams (the first with an error), drained to Done
 }
 
 func (c c18Case) config() parser.Config {
@@ -132,8 +135,15 @@ func checkC18(c c18Case, ctx *vCtx) *vFailure {
 	}
 	missing := filepath.Join(vScratchDir(), "c18-does-not-exist.yaml")
 	filePath := ""
-	if c.Input == "file" {
+	if c.Input == "file" || c.Input == "fifo" {
 		filePath = vWriteFile("c18-input.yaml", text)
+	}
+	fifoPath := filepath.Join(vScratchDir(), "c18-fifo")
+	if c.Input == "fifo" {
+		_ = os.Remove(fifoPath)
+		if err := syscall.Mkfifo(fifoPath, 0o644); err != nil {
+			vFault("mkfifo: %v", err)
+		}
 	}
 	// expectation: the callback parser, stopping at its first error
 	var want []c18Event
@@ -143,7 +153,7 @@ func checkC18(c c18Case, ctx *vCtx) *vFailure {
 		switch c.Input {
 		case "missing-file":
 			err = parser.ParseFileCallback(missing, cfg, func(n *shared.ParserNode, e error) (bool, error) { return e != nil, e })
-		case "file":
+		case "file", "fifo": // the expectation for a named pipe is what the same content gives in a regular file
 			err = parser.ParseFileCallback(filePath, cfg, func(n *shared.ParserNode, e error) (bool, error) {
 				if e != nil {
 					return true, e
@@ -182,12 +192,58 @@ func checkC18(c c18Case, ctx *vCtx) *vFailure {
 	defer runtime.GOMAXPROCS(old)
 
 	p := parser.NewParser(cfg)
+	// a Parser value used for several inputs one after the other: earlier streams must not influence later ones
+	for w := 0; w < c.Warmup; w++ {
+		wtext := "warm:\n  up: 1\n"
+		if w == 0 {
+			wtext = "warm:\n  broken\n  up: 1\n"
+		}
+		wdone := make(chan struct{})
+		go func() { p.ParseStream(strings.NewReader(wtext)); close(wdone) }()
+		tm := time.After(15 * time.Second)
+	drain:
+		for {
+			select {
+			case <-p.Nodes:
+			case <-p.Errors:
+			case <-p.Done:
+				break drain
+			case <-tm:
+				vFault("C18: warm-up stream did not finish")
+			}
+		}
+		select {
+		case <-wdone:
+		case <-time.After(15 * time.Second):
+			vFault("C18: warm-up producer did not exit")
+		}
+	}
+	if c.Warmup > 0 {
+		ctx.Label("parser-reused")
+	}
+	if c.Input == "fifo" {
+		go func() {
+			f, err := os.OpenFile(fifoPath, os.O_WRONLY, 0)
+			if err != nil {
+				return
+			}
+			_, _ = f.WriteString(text)
+			f.Close()
+		}()
+		defer func() { // unblock the writer if the parser never opened the pipe
+			if f, err := os.OpenFile(fifoPath, os.O_RDONLY|syscall.O_NONBLOCK, 0); err == nil {
+				f.Close()
+			}
+		}()
+	}
 	exited := make(chan struct{})
 	go func() {
 		defer close(exited)
 		switch c.Input {
 		case "missing-file":
 			p.ParseFile(missing)
+		case "fifo":
+			p.ParseFile(fifoPath)
 		case "file":
 			p.ParseFile(filePath)
 		default:
@@ -344,7 +400,7 @@ func genC18(t *rapid.T) c18Case {
 		case kind == 7:
 			c.Input = "missing-file"
 		default:
-			c.Input = "file"
+			c.Input = []string{"file", "file", "fifo"}[rapid.IntRange(0, 2).Draw(t, "filekind")]
 			if rapid.Bool().Draw(t, "bad") {
 				c09Plant(t, &d, 1, pool, "plant")
 			}
@@ -352,6 +408,7 @@ func genC18(t *rapid.T) c18Case {
 	}
 	c.Doc = d
 	c.Comment = []int{0, 0, 0, 1, 2}[rapid.IntRange(0, 4).Draw(t, "config")]
+	c.Warmup = []int{0, 0, 0, 1, 2}[rapid.IntRange(0, 4).Draw(t, "warmup")]
 	if rapid.IntRange(0, 9).Draw(t, "longline") == 0 {
 		c.LongLine = []int{4096, 8192, 65535, 65536, 70000, 100000, 140000}[rapid.IntRange(0, 6).Draw(t, "longlinen")]
 	}
@@ -368,6 +425,6 @@ func init() { vRegister("C18", "c18.schedules", checkC18) }
 
 func TestVerifC18Schedules(t *testing.T) {
 	vRapid(t, "C18", "c18.schedules",
-		"parser configurations {default, zero Config, ';' comments} x inputs {valid files, files with 1-3 malformed lines, files with a line of 4 KiB..140 KiB, empty / comment-only, reader failing at a drawn offset, missing file and real file through ParseFile} x consumer policy {documented loop: stop at first error or Done; drain: keep receiving until Done} x drawn schedule (Gosched calls and 0-200 us sleeps before each receive, producer slowed by a reader with drawn delays and chunking, GOMAXPROCS in {1,2,16}), built with the race detector; differential against the callback parser stopping at its first error; after a drain the producer goroutine must have exited; non-trivial = the input has an error or >=2 records",
+		"parser configurations {default, zero Config, ';' comments} x inputs {valid files, files with 1-3 malformed lines, files with a line of 4 KiB..140 KiB, empty / comment-only, reader failing at a drawn offset, missing file, real file and named pipe through ParseFile; the Parser value fresh or reused after other streams} x consumer policy {documented loop: stop at first error or Done; drain: keep receiving until Done} x drawn schedule (Gosched calls and 0-200 us sleeps before each receive, producer slowed by a reader with drawn delays and chunking, GOMAXPROCS in {1,2,16}), built with the race detector; differential against the callback parser stopping at its first error; after a drain the producer goroutine must have exited; non-trivial = the input has an error or >=2 records",
 		vBudget(4800, 160000), genC18, checkC18)
 }
